@@ -634,3 +634,14 @@ func (l *Log) universe() [][]byte {
 	}
 	return out
 }
+
+// pfKeys: the primary keys that are the target of a PFADD somewhere in the log.
+func (l *Log) pfKeys() map[string]bool {
+	m := map[string]bool{}
+	for _, r := range l.Reqs {
+		if r.Kind == 'R' && len(r.Args) >= 2 && strings.ToLower(string(r.Args[0])) == "pfadd" {
+			m[string(r.Args[1])] = true
+		}
+	}
+	return m
+}
